@@ -19,6 +19,18 @@ claim("C18", "proof",
       "Coq kernel; extraction (ExtrOcamlBasic only); verifdump hook prints AddRange results faithfully; int32 vs Z (no rune near MaxInt32).",
       "Rocq proof by induction on the class list + extracted-model differential correspondence", "6 C18")
 
+claim("C08", "proof",
+      "Coq theorems (Properties/C08.v) over a model of the generated Scan loop, for every DFA, every byte string and every prefix "
+      "of the token stream: every token (INVALID and EOF included) carries the exact offset, line (1 + newlines before) and column "
+      "(1 + advance since last CR/LF, 4 per tab) of its first byte, literals are the input bytes they cover, lexemes and ignored text "
+      "tile the input without gap/overlap, EOF is sticky, Scan never runs out of fuel. The model is tied to the code by compiling real "
+      "generated lexers (gocc built from the working tree) and comparing token streams with the extracted model on the tables re-read "
+      "from the emitted Go files; the property oracle is also evaluated on the Go token list alone; Utf8.decode_rune is compared with "
+      "utf8.DecodeRune exhaustively on 1-2 byte strings and on a boundary grid.",
+      "Coq kernel; hand-written Scan model tied by differential testing (not a translation of the template); text/template, Go compiler, "
+      "utf8.DecodeRune modelled; characters = decoded runes.",
+      "Rocq proof (loop invariant over consumed prefix) + extracted-model differential correspondence on generated lexers", "6 C08")
+
 ALL = ["C%02d" % i for i in range(1, 21)]
 NOT_YET = "framework under construction: check for this property not built yet (planned, see DESIGN.md section 6)"
 
